@@ -315,9 +315,11 @@ fn struct_mutants(m: &BytecodeModule) -> Vec<(&'static str, BytecodeModule)> {
                             }
                             match k {
                                 0 => r.name_idx = pickv(n_strings),
-                                1 => r.inputs_size = u32::MAX,
-                                2 => r.outputs_size = u32::MAX,
-                                3 => r.memory_size = u32::MAX,
+                                // (large, but not so large that sixteen workers applying it at once exhaust the machine:
+                                // a validated container's image sizes are honoured by apply)
+                                1 => r.inputs_size = 1 << 27,
+                                2 => r.outputs_size = 1 << 27,
+                                3 => r.memory_size = 1 << 27,
                                 _ => {
                                     let task = &mut r.tasks[(k - 4) / 6];
                                     match (k - 4) % 6 {
